@@ -79,6 +79,7 @@ struct Inst {
     items: Vec<(f64, f64)>, // positive-weight inserts since creation / clear
     unit: bool,             // only unit weights so far
     delta: f64,
+    kind: String,
 }
 
 pub struct D {
@@ -178,6 +179,50 @@ impl D {
         if inst.unit && (f.n_centroids() as f64) > inst.delta + 3.0 {
             ctx.fail("C04", format!("{} centroids exceed delta+3 (delta={}, n={})", f.n_centroids(), inst.delta, inst.items.len()));
         }
+        // C04 rank accuracy (unit weights): distance from q to the rank interval [#(< v), #(<= v)]/n of the returned value,
+        // and of cdf(x) to the empirical CDF interval, at most 3 W + 2/n (W = maximal cluster width of the scale function)
+        if inst.unit {
+            let nn = inst.items.len() as f64;
+            let d = inst.delta;
+            let w = match inst.kind.as_str() {
+                "K0" => Some(2.0 / d),
+                "K1" => Some(std::f64::consts::PI / d),
+                "K2" if nn >= d => Some(((nn / d).ln() + 6.0) / d),
+                "K3" if nn >= d => Some((2.0 * (nn / d).ln() + 10.5) / d),
+                _ => None,
+            };
+            if let Some(w) = w {
+                let bound = 3.0 * w + 2.0 / nn + 1e-9;
+                let mut xs: Vec<f64> = inst.items.iter().map(|t| t.0).collect();
+                xs.sort_by(|a, b| a.partial_cmp(b).unwrap());
+                let range = (xs[xs.len() - 1] - xs[0]).abs().max(xs[xs.len() - 1].abs()).max(xs[0].abs());
+                let ev = 16.0 * f64::EPSILON * range;
+                let below = |v: f64| xs.partition_point(|y| *y < v) as f64 / nn;
+                let upto = |v: f64| xs.partition_point(|y| *y <= v) as f64 / nn;
+                // cdf first, on a clone that has not been read yet
+                let g = inst.f.clone();
+                for k in 0..=32 {
+                    let x = xs[0] + (xs[xs.len() - 1] - xs[0]) * (k as f64) / 32.0;
+                    let c = g.cdf(x);
+                    let (lo, hi) = (below(x - ev), upto(x + ev));
+                    let err = (lo - c).max(c - hi).max(0.0);
+                    if err > bound {
+                        ctx.fail("C04", format!("cdf({})={} but the empirical CDF is in [{}, {}]: error {} > 3W+2/n = {} ({}, delta={}, n={})", x, c, lo, hi, err, bound, inst.kind, d, nn));
+                        break;
+                    }
+                }
+                for k in 0..=64 {
+                    let q = k as f64 / 64.0;
+                    let v = f.quantile(q);
+                    let (lo, hi) = (below(v - ev), upto(v + ev));
+                    let err = (lo - q).max(q - hi).max(0.0);
+                    if err > bound {
+                        ctx.fail("C04", format!("quantile({})={} has rank in [{}, {}]: error {} > 3W+2/n = {} ({}, delta={}, n={})", q, v, lo, hi, err, bound, inst.kind, d, nn));
+                        break;
+                    }
+                }
+            }
+        }
         // C15 shape on a grid; allowance: a few ulps of the data range, scaled by total/smallest weight
         let wmin = inst.items.iter().map(|t| t.1).fold(f64::INFINITY, f64::min);
         let range = (mx - mn).abs().max(mx.abs()).max(mn.abs());
@@ -266,7 +311,7 @@ impl Driver for D {
                     _ => Sf::K3(K3::new(delta)),
                 };
                 let f = TDigest::new(LogScale { inner: sf, log: Rc::clone(&self.log) }, p(&op[4]));
-                put(&mut self.v, i, Inst { f, ctor: op.to_vec(), items: vec![], unit: true, delta });
+                put(&mut self.v, i, Inst { f, ctor: op.to_vec(), items: vec![], unit: true, delta, kind: op[2].clone() });
                 vec!["unit".into()]
             }
             "ins" => {
